@@ -206,8 +206,8 @@ def check_props(pid, workdir, timeout=600):
         res['log'] = 'missing ' + src_path
         return res
     src = strip_comments(open(src_path).read())
-    thms = re.findall(r'^\s*Theorem\s+(\w+)', src, re.M)
-    pas = re.findall(r'^\s*Print\s+Assumptions\s+(\w+)\s*\.', src, re.M)
+    thms = re.findall(r"^\s*Theorem\s+([\w']+)", src, re.M)
+    pas = re.findall(r"^\s*Print\s+Assumptions\s+([\w']+)\s*\.", src, re.M)
     if thms != pas:
         res['shape_problems'].append('theorems %r and Print Assumptions %r do not line up' % (thms, pas))
     # shape: every sentence is Require/From/Import/Theorem/Proof/exact/Qed/Print Assumptions/Set Printing
@@ -261,7 +261,7 @@ def theorem_statements(pid):
     src_path = os.path.join(COQDIR, 'Props', pid + '.v')
     src = strip_comments(open(src_path).read())
     out = {}
-    for m in re.finditer(r'Theorem\s+(\w+)\s*(.*?)\.\s*Proof', src, re.S):
+    for m in re.finditer(r"Theorem\s+([\w']+)\s*(.*?)\.\s*Proof", src, re.S):
         out[m.group(1)] = re.sub(r'\s+', ' ', m.group(2)).strip()
     return out
 
